@@ -230,34 +230,55 @@ func (c *cache) rollbackNode(ptr *node.Pointer) {
 	ptr.LRU = nil
 }
 
-func (c *cache) tryRemoveNode(ptr, lockedPtr *node.Pointer) error {
-	if lockedPtr != nil && lockedPtr == ptr {
-		return errRemoveLocked
+// holdsLocked returns true iff removing the cached subtree rooted at ptr would remove lockedPtr.
+func holdsLocked(ptr, lockedPtr *node.Pointer) bool {
+	if ptr == lockedPtr {
+		return true
 	}
 	if ptr.LRU == nil {
+		// Node has not yet been committed to cache, the removal does not descend into it.
+		return false
+	}
+	if n, ok := ptr.Node.(*node.InternalNode); ok {
+		for _, child := range []*node.Pointer{n.LeafNode, n.Left, n.Right} {
+			if child != nil && child.Node != nil && holdsLocked(child, lockedPtr) {
+				return true
+			}
+		}
+	}
+	return false
+}
+
+func (c *cache) tryRemoveNode(ptr, lockedPtr *node.Pointer) error {
+	// Check before anything is removed. A node that cannot be removed because the locked pointer
+	// is below it must be left intact, it must not stay in the cache with some of its children
+	// already cut off.
+	if lockedPtr != nil && holdsLocked(ptr, lockedPtr) {
+		return errRemoveLocked
+	}
+	c.doRemoveNode(ptr)
+	return nil
+}
+
+func (c *cache) doRemoveNode(ptr *node.Pointer) {
+	if ptr.LRU == nil {
 		// Node has not yet been committed to cache.
-		return nil
+		return
 	}
 
 	switch n := ptr.Node.(type) {
 	case *node.InternalNode:
 		// Remove leaf node and subtrees first.
 		if n.LeafNode != nil && n.LeafNode.Node != nil {
-			if err := c.tryRemoveNode(n.LeafNode, lockedPtr); err != nil {
-				return err
-			}
+			c.doRemoveNode(n.LeafNode)
 			n.LeafNode = nil
 		}
 		if n.Left != nil && n.Left.Node != nil {
-			if err := c.tryRemoveNode(n.Left, lockedPtr); err != nil {
-				return err
-			}
+			c.doRemoveNode(n.Left)
 			n.Left = nil
 		}
 		if n.Right != nil && n.Right.Node != nil {
-			if err := c.tryRemoveNode(n.Right, lockedPtr); err != nil {
-				return err
-			}
+			c.doRemoveNode(n.Right)
 			n.Right = nil
 		}
 
@@ -276,7 +297,6 @@ func (c *cache) tryRemoveNode(ptr, lockedPtr *node.Pointer) error {
 
 	ptr.Node = nil
 	ptr.LRU = nil
-	return nil
 }
 
 // removeNode removes a tree node.
